@@ -67,7 +67,17 @@ func (o *goSliceObject) setLength(value Value) {
 		// Needs expanding.
 		newSlice := reflect.MakeSlice(o.value.Type(), wantInt, wantInt)
 		reflect.Copy(newSlice, o.value)
-		o.value = newSlice
+		o.replace(newSlice)
+	}
+}
+
+// replace installs a grown slice: in the Go variable itself when the slice is addressable (a field of a
+// bridged *struct), so that Go sees the growth too; otherwise only in this object's own copy of the header.
+func (o *goSliceObject) replace(grown reflect.Value) {
+	if o.value.CanSet() {
+		o.value.Set(grown)
+	} else {
+		o.value = grown
 	}
 }
 
@@ -81,7 +91,7 @@ func (o *goSliceObject) setValue(index int64, value Value) bool {
 	if !exists {
 		if int64(o.value.Len()) == index {
 			// Trying to append e.g. slice.push(...), allow it.
-			o.value = reflect.Append(o.value, reflectValue)
+			o.replace(reflect.Append(o.value, reflectValue))
 			return true
 		}
 		return false
